@@ -85,15 +85,16 @@ theorem consumeRange_small (r : Range) (inp : Bytes) (h : (Unified.consumeRange 
   | true =>
     have hv := h1 rfl
     simp only [Bool.not_true, Bool.false_eq_true, if_false] at h ⊢
-    split
-    · next rest2 _ =>
-      simp only at h
+    generalize consumeStr [44] rest = oc at h ⊢
+    cases oc with
+    | none => exact ⟨hv, small_one⟩
+    | some rest2 =>
+      simp only at h ⊢
       have h2 := consumeLineNumber_small rest2 r.count
       generalize consumeLineNumber rest2 r.count = t2 at h h2 ⊢
       obtain ⟨ok2, c, rest3⟩ := t2
       simp only at h h2 ⊢
       exact ⟨hv, h2 h⟩
-    · exact ⟨hv, small_one⟩
 
 theorem parseUnifiedRange_small (h0 : Hunk) (l : Bytes) (h : (parseUnifiedRange h0 l).1 = true) :
     Small (parseUnifiedRange h0 l).2.old.start ∧ Small (parseUnifiedRange h0 l).2.old.count ∧
@@ -115,7 +116,6 @@ theorem parseUnifiedRange_small (h0 : Hunk) (l : Bytes) (h : (parseUnifiedRange 
       split at h
       · cases h
       · next r3 _ =>
-        simp only at h ⊢
         have hn := consumeRange_small h0.new r3
         generalize Unified.consumeRange h0.new r3 = t2 at h hn ⊢
         obtain ⟨ok2, newR, r4⟩ := t2
@@ -141,14 +141,277 @@ theorem parseContextRange_small (s e : Int) (t : Bytes) (h : (parseContextRange 
   | true =>
     have hv := h1 rfl
     simp only [Bool.not_true, Bool.false_eq_true, if_false] at h ⊢
-    split
-    · exact ⟨hv, hv⟩
-    · next r2 _ =>
-      simp only at h
+    generalize consumeStr [44] r1 = oc at h ⊢
+    cases oc with
+    | none => exact ⟨hv, hv⟩
+    | some r2 =>
+      simp only at h ⊢
       have h2 := consumeLineNumber_small r2 e
       generalize consumeLineNumber r2 e = t2 at h h2 ⊢
       obtain ⟨ok2, c, r3⟩ := t2
       simp only at h h2 ⊢
       exact ⟨hv, h2 h⟩
+
+
+/-! ### `parse_normal_range` in pieces -/
+
+/-- the command letter and what follows it -/
+def normalCmd (r3 : Bytes) : UInt8 × Bytes :=
+  match r3 with
+  | c :: r => (c, r)
+  | [] => (0, [])
+
+/-- the old count when the old range has no comma -/
+def normalH3 (hasComma : Bool) (command : UInt8) (h2 : Hunk) : Hunk :=
+  if !hasComma then { h2 with old := { h2.old with count := if command == 97 then 0 else 1 } } else h2
+
+/-- the end of the new range -/
+def normalEnd (hasComma : Bool) (command : UInt8) (ns : Int) (r5 : Bytes) : Option (Int × Bytes) :=
+  match consumeStr [44] r5 with
+  | some r6 =>
+    if hasComma && command != 99 then none
+    else
+      let (ok4, e, r7) := consumeLineNumber r6 0
+      if !ok4 then none else some (e, r7)
+  | none => some (ns, r5)
+
+/-- the new count -/
+def normalCount (command : UInt8) (ns newEnd : Int) : Int :=
+  let cnt := newEnd - ns + 1
+  if command == 100 then cnt - 1 else cnt
+
+/-- everything after the old range -/
+def normalTail (hasComma : Bool) (h2 : Hunk) (r3 : Bytes) : Bool × Hunk :=
+  let (command, r4) := normalCmd r3
+  if command != 99 && command != 97 && command != 100 then (false, h2)
+  else
+    let h3 : Hunk := normalH3 hasComma command h2
+    let (ok3, ns, r5) := consumeLineNumber r4 h3.new.start
+    let h4 : Hunk := { h3 with new := { h3.new with start := ns } }
+    if !ok3 then (false, h4)
+    else
+      match normalEnd hasComma command h4.new.start r5 with
+      | none => (false, h4)
+      | some (newEnd, r8) =>
+        (r8.isEmpty, { h4 with new := { h4.new with count := normalCount command h4.new.start newEnd } })
+
+/-- the end of the old range -/
+def normalStep1 (hasComma : Bool) (h1 : Hunk) (r2 : Bytes) : Option (Hunk × Bytes) :=
+  if hasComma then
+    let (ok2, e, r3) := consumeLineNumber r2 0
+    if !ok2 then none
+    else if e < h1.old.start then none
+    else some ({ h1 with old := { h1.old with count := e - h1.old.start + 1 } }, r3)
+  else some (h1, r2)
+
+theorem parseNormalRange_eq (h : Hunk) (line : Bytes) : parseNormalRange h line =
+    (let (ok, os, r1) := consumeLineNumber line h.old.start
+     let h1 : Hunk := { h with old := { h.old with start := os } }
+     if !ok then (false, h1)
+     else
+       let (hasComma, r2) := match consumeStr [44] r1 with
+         | some r => (true, r)
+         | none => (false, r1)
+       match normalStep1 hasComma h1 r2 with
+       | none => (false, h1)
+       | some (h2, r3) => normalTail hasComma h2 r3) := rfl
+
+
+theorem normalEnd_small {hc : Bool} {cmd : UInt8} {ns : Int} {r5 : Bytes} {e : Int} {r8 : Bytes} (hns : Small ns)
+    (h : normalEnd hc cmd ns r5 = some (e, r8)) : Small e := by
+  unfold normalEnd at h
+  generalize consumeStr [44] r5 = oc at h
+  cases oc with
+  | none => simp only [Option.some.injEq, Prod.mk.injEq] at h; rw [← h.1]; exact hns
+  | some r6 =>
+    simp only at h
+    split at h
+    · cases h
+    · have h2 := consumeLineNumber_small r6 0
+      generalize consumeLineNumber r6 0 = t at h h2
+      obtain ⟨ok4, e', r7⟩ := t
+      simp only at h h2
+      cases ok4 with
+      | false => simp at h
+      | true =>
+        simp only [Bool.not_true, Bool.false_eq_true, if_false, Option.some.injEq, Prod.mk.injEq] at h
+        rw [← h.1]; exact h2 rfl
+
+theorem normalCount_bounds (cmd : UInt8) {ns e : Int} (hns : Small ns) (he : Small e) :
+    -(i64Max / 4) - 1 ≤ normalCount cmd ns e ∧ normalCount cmd ns e ≤ i64Max / 4 + 1 := by
+  rw [small_iff] at hns he
+  rw [i64Max_div4]
+  unfold normalCount
+  simp only
+  split <;> omega
+
+theorem normalStep1_some {hc : Bool} {h1 h2 : Hunk} {r2 r3 : Bytes} (hs : Small h1.old.start)
+    (h : normalStep1 hc h1 r2 = some (h2, r3)) :
+    h2.old.start = h1.old.start ∧ h2.new = h1.new ∧
+    (hc = true → 1 ≤ h2.old.count ∧ h2.old.count ≤ i64Max / 4 + 1) := by
+  unfold normalStep1 at h
+  cases hc with
+  | false =>
+    simp only [Bool.false_eq_true, if_false, Option.some.injEq, Prod.mk.injEq] at h
+    rw [← h.1]; exact ⟨rfl, rfl, fun x => by cases x⟩
+  | true =>
+    simp only [if_true] at h
+    have hl := consumeLineNumber_small r2 0
+    generalize consumeLineNumber r2 0 = t at h hl
+    obtain ⟨ok2, e, r3'⟩ := t
+    simp only at h hl
+    cases ok2 with
+    | false => simp at h
+    | true =>
+      have he := hl rfl
+      simp only [Bool.not_true, Bool.false_eq_true, if_false] at h
+      split at h
+      · cases h
+      · next hlt =>
+        simp only [Option.some.injEq, Prod.mk.injEq] at h
+        rw [← h.1]
+        refine ⟨rfl, rfl, fun _ => ?_⟩
+        rw [small_iff] at hs he
+        rw [i64Max_div4]
+        simp only
+        omega
+
+theorem normalTail_ok {hc : Bool} {h2 : Hunk} {r3 : Bytes} (h : (normalTail hc h2 r3).1 = true) :
+    (normalTail hc h2 r3).2.old.start = h2.old.start ∧
+    (hc = true → (normalTail hc h2 r3).2.old.count = h2.old.count) ∧
+    (hc = false → (normalTail hc h2 r3).2.old.count = 0 ∨ (normalTail hc h2 r3).2.old.count = 1) ∧
+    Small (normalTail hc h2 r3).2.new.start ∧
+    -(i64Max / 4) - 1 ≤ (normalTail hc h2 r3).2.new.count ∧ (normalTail hc h2 r3).2.new.count ≤ i64Max / 4 + 1 := by
+  unfold normalTail at h ⊢
+  generalize normalCmd r3 = t0 at h ⊢
+  obtain ⟨cmd, r4⟩ := t0
+  simp only at h ⊢
+  split at h
+  · cases h
+  · next hcmd =>
+    rw [if_neg hcmd]
+    have h3s : (normalH3 hc cmd h2).old.start = h2.old.start := by unfold normalH3; split <;> rfl
+    have h3c1 : hc = true → (normalH3 hc cmd h2).old.count = h2.old.count := by
+      intro e; subst e; rfl
+    have h3c0 : hc = false → (normalH3 hc cmd h2).old.count = 0 ∨ (normalH3 hc cmd h2).old.count = 1 := by
+      intro e; subst e; unfold normalH3; simp only [Bool.not_false, if_true]; split
+      · exact Or.inl rfl
+      · exact Or.inr rfl
+    generalize normalH3 hc cmd h2 = h3 at h h3s h3c1 h3c0 ⊢
+    have hl := consumeLineNumber_small r4 h3.new.start
+    generalize consumeLineNumber r4 h3.new.start = t at h hl ⊢
+    obtain ⟨ok3, ns, r5⟩ := t
+    simp only at h hl ⊢
+    cases ok3 with
+    | false => simp at h
+    | true =>
+      have hns := hl rfl
+      simp only [Bool.not_true, Bool.false_eq_true, if_false] at h ⊢
+      have he := @normalEnd_small hc cmd ns r5
+      generalize normalEnd hc cmd ns r5 = oe at h he ⊢
+      cases oe with
+      | none => cases h
+      | some p =>
+        obtain ⟨e, r8⟩ := p
+        simp only at h ⊢
+        have := normalCount_bounds cmd hns (he hns rfl)
+        exact ⟨h3s, h3c1, h3c0, hns, this.1, this.2⟩
+
+theorem parseNormalRange_bounds (h0 : Hunk) (l : Bytes) (h : (parseNormalRange h0 l).1 = true) :
+    Small (parseNormalRange h0 l).2.old.start ∧
+    0 ≤ (parseNormalRange h0 l).2.old.count ∧ (parseNormalRange h0 l).2.old.count ≤ i64Max / 4 + 1 ∧
+    Small (parseNormalRange h0 l).2.new.start ∧
+    -(i64Max / 4) - 1 ≤ (parseNormalRange h0 l).2.new.count ∧ (parseNormalRange h0 l).2.new.count ≤ i64Max / 4 + 1 := by
+  rw [parseNormalRange_eq] at h ⊢
+  have h1 := consumeLineNumber_small l h0.old.start
+  generalize consumeLineNumber l h0.old.start = t1 at h h1 ⊢
+  obtain ⟨ok, os, r1⟩ := t1
+  simp only at h h1 ⊢
+  cases ok with
+  | false => simp at h
+  | true =>
+    have hos := h1 rfl
+    simp only [Bool.not_true, Bool.false_eq_true, if_false] at h ⊢
+    have key : ∀ (hc : Bool) (r2 : Bytes),
+        ((match normalStep1 hc { h0 with old := { h0.old with start := os } } r2 with
+          | none => (false, ({ h0 with old := { h0.old with start := os } } : Hunk))
+          | some (h2, r3) => normalTail hc h2 r3).1 = true) →
+        let R := (match normalStep1 hc { h0 with old := { h0.old with start := os } } r2 with
+          | none => (false, ({ h0 with old := { h0.old with start := os } } : Hunk))
+          | some (h2, r3) => normalTail hc h2 r3).2
+        Small R.old.start ∧ 0 ≤ R.old.count ∧ R.old.count ≤ i64Max / 4 + 1 ∧ Small R.new.start ∧
+          -(i64Max / 4) - 1 ≤ R.new.count ∧ R.new.count ≤ i64Max / 4 + 1 := by
+      intro hc r2 hk
+      have hst := fun h2 r3 => @normalStep1_some hc { h0 with old := { h0.old with start := os } } h2 r2 r3 hos
+      generalize normalStep1 hc { h0 with old := { h0.old with start := os } } r2 = st at hk hst ⊢
+      cases st with
+      | none => cases hk
+      | some p =>
+        obtain ⟨h2, r3⟩ := p
+        simp only at hk ⊢
+        obtain ⟨a1, a2, a3⟩ := hst h2 r3 rfl
+        obtain ⟨b1, b2, b3, b4, b5, b6⟩ := normalTail_ok hk
+        refine ⟨?_, ?_, ?_, b4, b5, b6⟩
+        · rw [b1, a1]; exact hos
+        · cases hc with
+          | true => rw [b2 rfl]; have := (a3 rfl).1; omega
+          | false => rcases b3 rfl with e | e <;> rw [e] <;> omega
+        · rw [i64Max_div4]
+          cases hc with
+          | true => rw [b2 rfl]; have := (a3 rfl).2; rw [i64Max_div4] at this; exact this
+          | false => rcases b3 rfl with e | e <;> rw [e] <;> omega
+    generalize consumeStr [44] r1 = oc at h ⊢
+    cases oc with
+    | none => exact key false r1 h
+    | some r2 => exact key true r2 h
+
+
+/-! ### the hunk loop -/
+
+theorem oldOf_length_le (ls : List PatchLine) : (oldOf ls).length ≤ ls.length := by
+  unfold oldOf; rw [List.length_map]; exact List.length_filter_le _ _
+
+theorem newOf_length_le (ls : List PatchLine) : (newOf ls).length ≤ ls.length := by
+  unfold newOf; rw [List.length_map]; exact List.length_filter_le _ _
+
+/-- what `finishHunk` does to `offset_old_lines_to_new`: unchanged, or the net growth of the hunk -/
+theorem finishHunk_offNew {file : List Line} {o : ApplyOpts} {p : Patch} {s s' : AState} {num : Nat} {h : Hunk}
+    {loc : Option Location} (hs : finishHunk file o p s num h loc = .ok s') :
+    s'.offNew = s.offNew ∨ s'.offNew = s.offNew + (h.new.count - h.old.count) := by
+  unfold finishHunk at hs
+  simp only [] at hs
+  split at hs
+  · cases hs
+  · next s1 hs1 =>
+    have h1 : s1.offNew = s.offNew := by
+      split at hs1
+      · split at hs1
+        · cases hs1
+        · split at hs1
+          · cases hs1
+          · cases hs1; rfl
+      · split at hs1
+        · cases hs1
+        · cases hs1; rfl
+    cases hs
+    rw [← h1]
+    (repeat' split) <;> simp
+
+/-- the only exception of the hunk loop over well-formed hunks (no -D): none -/
+theorem runLoop_ok {file : List Line} {o : ApplyOpts} {p : Patch} {s : AState}
+    (hsound : Apply.LocatorSound file o.ignoreWhitespace o.maxFuzz) (hD : o.define = [])
+    (hwf : ∀ h ∈ p.hunks, h.WF) : ∃ r, Apply.runLoop file o p s = .ok r := by
+  obtain ⟨s3, h3⟩ := Apply.applyRest_total (p := p) hsound hD p.hunks s 0 hwf
+  exact ⟨_, by unfold Apply.runLoop; rw [h3]⟩
+
+/-- for well-formed hunks without -D the only exception `apply_patch` can end in is the missing tty -/
+theorem applyPatch_error {file : List Line} {p0 : Patch} {o : ApplyOpts} {tty : Option (List Bool)} {e : Exn}
+    (hsound : Apply.LocatorSound file o.ignoreWhitespace o.maxFuzz)
+    (hwf : ∀ h ∈ p0.hunks, h.WF) (hD : o.define = []) (he : applyPatch file p0 o tty = .error e) :
+    e = .systemError ∧ o.ignoreReversed = false ∧ o.batch = false ∧ o.force = false ∧ tty = none := by
+  rcases Apply.applyPatch_cases file p0 o tty with ⟨h0, h1, h2, h3, h4⟩ | ⟨p', s1, _, hp, heq⟩
+  · rw [h0] at he; cases he; exact ⟨rfl, h1, h2, h3, h4⟩
+  · obtain ⟨r, hr⟩ := runLoop_ok (p := p') (s := s1) hsound hD (Apply.hunks_WF_of_cases hwf hp)
+    rw [heq, hr] at he; cases he
 
 end PatchModel.Bounds
